@@ -493,7 +493,9 @@ def c18_streams(rng, tier, budget):
     hosts = ["example.com", "bücher.example", "127.0.0.1", "::1", "fe80::1", "日本.jp", "xn--tda.com", "h",
              # every host kind the property names, in its awkward spellings: zone ids (the only place a '%' can occur in a host),
              # IPv4-mapped and upper-case IPv6, IDN with a digit-ending label, look-alikes of IP syntaxes, trailing dots
-             "fe80::1%eth0", "fe80::1%25eth0", "::ffff:1.2.3.4", "2001:DB8::1", "bücher.h1", "v1.example.com", "EXAMPLE.com", "h.", "1.2.3.example"]
+             "fe80::1%eth0", "fe80::1%25eth0", "::ffff:1.2.3.4", "2001:DB8::1", "bücher.h1", "v1.example.com", "EXAMPLE.com", "h.", "1.2.3.example",
+             # IDN hosts that the strict IDNA-2008 package refuses and only the stdlib (IDNA-2003) codec encodes / decodes
+             "i❤.ws", "☃.net", "my_svc.bücher.de"]
     # deterministic matrix first: every host kind × userinfo × port, so that no kind depends on the random draw
     for hst in hosts:
         for kw0 in ({}, {"user": "ü s"}, {"user": "u", "password": "p:w"}, {"port": 8080}, {"user": "a@b", "port": 80}):
@@ -580,6 +582,30 @@ def c18_oracle(full, io, b):
                         cls = "human-roundtrip-nfkc-userinfo"
                     out.append({"what": f"human_repr() = {pretty_out(hr)} is rejected by the constructor ({io[n]})", "class": cls, "n": n,
                                 "input": describe_handle(full, src)})
+    # readability: "shows printable non-ASCII text and the IDN host decoded rather than escaped"
+    for h, n in enumerate(v.cr):
+        f = full[n].split("\t")
+        if f[0] != "bld" or not v.alive(h):
+            continue
+        kw = dict(x.partition("=")[::2] for x in f[2:])
+        hr = v.get(h, "human_repr")
+        if hr is None or hr.startswith("!") or kw.get("encoded") == "T" or "authority" in kw:
+            continue
+        hr = dec(hr)
+        host = dec(kw["host"]) if kw.get("host") else ""
+        m = re.match(r"^[^/?#]*//([^/?#]*)", hr)
+        shown_auth = m.group(1) if m else ""
+        if host and not host.isascii() and "xn--" not in host.lower() and "xn--" in shown_auth.rpartition("@")[2].lower():
+            out.append(fail(v, h, "human_repr", f"human_repr() = {hr!r} shows the IDN host {host!r} as an A-label", "human-idn-host-escaped"))
+            continue
+        # printable non-ASCII text of the decoded components must appear literally
+        for key in ("user", "password", "path", "fragment"):
+            if key in kw and kw[key] != "~":
+                t = dec(kw[key])
+                for ch in t:
+                    if ord(ch) >= 128 and ch.isprintable() and not (0xD800 <= ord(ch) <= 0xDFFF) and ch not in hr:
+                        out.append(fail(v, h, "human_repr", f"human_repr() = {hr!r} does not show the printable character {ch!r} of {key} {t!r}", "human-nonascii-escaped"))
+                        break
     return out
 
 
